@@ -93,7 +93,7 @@ def world(name: str) -> Dict[str, Any]:
             requests=[{"id": "r1", "o": list(B), "d": list(D), "t": 0, "pax": 1}, {"id": "r2", "o": list(E), "d": list(A), "t": 0, "pax": 2}],
             fleets=None,
         )
-    elif name == "w4":  # vehicle in two fleets, public station, restricted base with station of another fleet than the vehicle at it
+    elif name == "w4":  # vehicle in two fleets, vehicle that runs dry, restricted base whose attached station is public
         base.update(
             vehicles=[
                 {"id": "va", "lat": A[0], "lon": A[1], "mech": "leaf_50", "soc": 0.5},
@@ -106,7 +106,8 @@ def world(name: str) -> Dict[str, Any]:
             ],
             bases=[{"id": "b1", "lat": A[0], "lon": A[1], "station": "bs1", "stalls": 1}],
             requests=[{"id": "r1", "o": list(A), "d": list(B), "t": 0, "pax": 1, "fleet": "fb"}, {"id": "r2", "o": list(B), "d": list(A), "t": 0, "pax": 1, "fleet": "fa"}],
-            fleets={"fa": {"vehicles": ["va"], "stations": ["bs1"], "bases": ["b1"]}, "fb": {"vehicles": ["va", "vb"], "stations": [], "bases": []}},
+            # the base is restricted to fa, its station is open to all: vb (fb only) stands at it and may use neither stall nor base charging
+            fleets={"fa": {"vehicles": ["va"], "stations": [], "bases": ["b1"]}, "fb": {"vehicles": ["va", "vb"], "stations": [], "bases": []}},
         )
     else:
         raise ValueError(name)
